@@ -31,6 +31,12 @@ CHECKS['C12'] = ('fault_enumeration', 'exhaustive fault injection (cancel at eve
     'supply - in_flight <= available <= supply - held and be non-negative, claims must never wait and fail exactly when unavailable, and at quiescence everything is back.',
     'Trusts the phase bracketing of the DSL (acquiring/held/releasing/gone) and the arithmetic of the oracle; a block left abnormally may hand back until the end of that time step.',
     'DESIGN.md section 3 C12')
+CHECKS['C06'] = ('fault_enumeration', 'exhaustive injection of 1-2 cancel() calls at every activation boundary of a victim task on the real kernel; status automaton sampled at every boundary, result identity across awaiters',
+    'For every payload shape, start option and awaiter arrangement, cancel() is called at every activation boundary of the execution (before start, at each suspension, '
+    'after completion) once and twice; the status sampled after EVERY activation must be a word of CREATED* RUNNING* FINAL+, all awaiters must get the identical value/exception '
+    'object at the right time, a cancel of a not-started task must prevent its code, a cancel of a suspended task must be raised inside it within the same time step, and parent/siblings must be undisturbed.',
+    'Trusts the lifecycle oracle in vk/checks/c06.py; one victim, <= 2 awaiters, <= 2 cancels.',
+    'DESIGN.md section 3 C06')
 PENDING = {}
 
 def main():
